@@ -40,6 +40,8 @@ func runC03(c *eng.Ctx) {
 	ruleReplacedWatermarkSegmentReinitialises(c)
 	c.Rule("R03.7", "K1")
 	ruleReadonlyVerdictIsRechecked(c)
+	c.Rule("R01.14", "K5")
+	ruleListIsFetchedAfterTheWait(c)
 	p := c.P
 	hw := p.Field(clPkg, "commitLog", "hw")
 	waiters := p.Field(clPkg, "commitLog", "hwWaiters")
